@@ -17,6 +17,7 @@ THEOREMS = [
     "C15_never_stays_running_refuted_engine", "C15_never_stays_running_refuted_retries",
     "C15_never_stays_running_refuted_append", "C15_never_stays_running_refuted_idle_write",
     "C15_never_stays_running_partial", "C15_retry_budget", "C15_restart_finalizes", "C15_restart_fault_mislabels",
+    "C15_cancel_reflected_refuted", "C15_cancel_reflected_partial",
 ]
 LEAN_TARGETS = ["WfProps.C15"]
 EXPLANATION = (
@@ -70,6 +71,7 @@ TRUSTED_EXTRA = [
 
 CORPUS = os.path.join(VERIF, "harness", "corpus")
 KNOWN = {
+    "cancel_released": "C15/cancel_reported_but_still_running:released_handler",
     "restart_mislabel": "C15/restart_finalize_mislabel:completed->failed",
     "engine": "C15/stays_running:engine_side_failure",
     "retries": "C15/stays_running:status_write_retries_exhausted",
@@ -168,6 +170,10 @@ def _corr(env: Env, out: Outcome, n_streams: int, n_sqlite: int) -> None:
         case = env.replay.get("payload", {}).get("case")
         if isinstance(case, dict) and "ops" in case:
             jobs.append((case.get("store", "memory"), list(case["ops"])))
+        for d in env.replay.get("payload", {}).get("divergence") or []:
+            ctx = d.get("context")
+            if isinstance(ctx, dict) and "ops" in ctx:
+                jobs.append((ctx.get("store", "memory"), list(ctx["ops"])))
     for h in HAND:
         jobs.append(("memory", h))
         jobs.append(("sqlite", h))
@@ -242,7 +248,7 @@ def _last_fault(res: S.CaseResult) -> tuple[str, Any, int] | None:
 def monitor(res: S.CaseResult) -> list[Violation]:
     vs: list[Violation] = []
     case = res.case
-    replay = {k: case.get(k) for k in ("store", "idle_timeout", "backoff", "spec", "fault", "seed", "restart", "restart_fault") if k in case}
+    replay = {k: case.get(k) for k in ("store", "idle_timeout", "backoff", "spec", "fault", "seed", "restart", "restart_fault", "cancel_after_release") if k in case}
     replay["actions"] = res.actions
 
     def bad(sig: str, what: str) -> None:
@@ -257,6 +263,18 @@ def monitor(res: S.CaseResult) -> list[Violation]:
         if res.record is not None:
             bad("row_without_run", f"start_workflow raised but a handler row exists with status {getattr(res.record, 'status', None)}")
         return vs
+    if res.started and res.outcome == "aborted" and res.cancel_result == "cancelled" and res.record is not None \
+            and res.record["status"] == "running":
+        bad("cancel_reported_but_still_running:" + ("released_handler" if res.released_at_cancel else "active_handler"),
+            "cancel_handler answered 'cancelled' but nothing was cancelled: the stored handler still says running")
+    if res.started and res.outcome == "aborted":
+        seen = False
+        for (rid, st_) in res.status_trace:
+            if rid == res.run_id and st_ in S.TERMINAL:
+                seen = True
+            elif rid == res.run_id and st_ == "running" and seen:
+                bad("terminal_to_running:released", f"status trace of the run: {[x for (r, x) in res.status_trace if r == res.run_id]}")
+                break
     if not res.started or res.outcome not in ENDED:
         return vs
     rec, late = res.record, res.record_late
@@ -391,6 +409,7 @@ def known_cases() -> list[tuple[str, dict]]:
         out.append(("retries", {"store": store, "spec": _one([["ret", "stop"]]), "fault": {"kind": "uhs_terminal", "k": 3}}))
         out.append(("append", {"store": store, "spec": _one([["ret", "stop"]]), "fault": {"kind": "app_at", "k": 1, "at": 0}}))
         out.append(("idle", {"store": store, "idle_timeout": 1000.0, "spec": _one([["ret", "none"]]), "fault": {"kind": "idle_uhs", "k": 1}}))
+        out.append(("cancel_released", {"store": store, "idle_timeout": 2.0, "spec": _one([["ret", "none"]]), "cancel_after_release": True}))
         out.append(("restart_mislabel", {"store": store, "spec": _one([["ret", "stop"]]), "fault": {"kind": "uhs_terminal", "k": 3},
                                          "restart": True, "restart_fault": 1}))
     return out
@@ -419,6 +438,12 @@ def gen_case(rng: random.Random) -> dict:
     else:
         spec = specgen.gen_spec(rng, allow_sync=False)
         spec["externals"] = [e for e in spec.get("externals", []) if e["op"] in ("send", "cancel")]
+    if rng.random() < 0.12:
+        # the idle layer really releases and reloads: only stickiness of terminal rows is judged for released runs
+        spec = specgen.gen_wait_spec(rng)
+        spec["externals"] = [e for e in spec.get("externals", []) if e["op"] in ("send", "cancel")]
+        return {"store": store, "idle_timeout": rng.choice([2.0, 5.0]), "backoff": backoff, "spec": spec, "fault": None,
+                "seed": rng.randrange(1 << 30)}
     fault = None
     r = rng.random()
     if r < 0.35:
